@@ -13,7 +13,7 @@ nopen = sum(1 for f in fs if f["status"] == "open")
 commits = subprocess.run(["git", "-C", "/repo", "log", "--format=%s"], capture_output=True, text=True).stdout.splitlines()
 ncommits = sum(1 for c in commits if c.startswith("fix:"))
 body = open(os.path.join(ROOT, "tools", "asbuilt.md.tmpl")).read()
-body = body.replace("@@FINDINGS@@", report.findings()).replace("@@SEEDS@@", report.seeds()).replace("@@BENIGN@@", report.benign()).replace("@@NUMBERS@@", report.numbers()).replace("@@PERPROP@@", report.perprop())
+body = body.replace("@@FINDINGS@@", report.findings()).replace("@@SEEDS@@", report.seeds()).replace("@@BENIGN@@", report.benign()).replace("@@NUMBERS@@", report.numbers()).replace("@@PERPROP@@", report.perprop()).replace("@@THOROUGH@@", open(os.path.join(ROOT, "tools", "thorough_table.md")).read())
 body = body.replace("@@NTOTAL@@", str(nfixed + nopen)).replace("@@NFIXED@@", str(nfixed)).replace("@@NCOMMITS@@", str(ncommits))
 p = os.path.join(ROOT, "DESIGN.md")
 t = open(p).read()
